@@ -237,8 +237,30 @@ let run_fail id rest =
           let s = if mode = "m" then
               { s with Component.s_frames = Stdlib.List.map (fun f -> match Component.precompute f with Ok f' -> f' | _ -> f) s.Component.s_frames }
             else s in
-          (match Component.stream_ops s with
-           | Ok ops ->
+          let nth_mod l i = let n = Stdlib.List.length l in if n = 0 then None else Some (Stdlib.List.nth l (i mod n)) in
+          let comp_ops : (Sink.op list) Base.coq_Res option =
+            if mode = "s" || mode = "m" then Some (Component.stream_ops s) else begin
+              let kind = Stdlib.String.sub mode 0 1 in
+              let idx = Stdlib.String.sub mode 1 (Stdlib.String.length mode - 1) in
+              let (i, j) = (match split_on '.' idx with [a; b] -> (int_of_string a, int_of_string b) | [a] -> (int_of_string a, 0) | _ -> (0, 0)) in
+              match nth_mod s.Component.s_frames i with
+              | None -> None
+              | Some f ->
+                if kind = "f" then Some (Component.frame_ops f)
+                else if kind = "h" then Some (Component.header_ops f.Component.f_header)
+                else (match nth_mod f.Component.f_subframes j with
+                      | None -> None
+                      | Some sf ->
+                        if kind = "r" then
+                          (match sf with
+                           | Component.SFixed (_, r, _) -> Some (Base.Ok (Component.residual_ops r))
+                           | Component.SLpc (_, _, r, _) -> Some (Base.Ok (Component.residual_ops r))
+                           | _ -> Some (Base.Ok (Component.subframe_ops sf)))
+                        else Some (Base.Ok (Component.subframe_ops sf)))
+            end in
+          (match comp_ops with
+           | None -> id ^ " no-component"
+           | Some (Ok ops) ->
              let calls = FailSink.expand ops in
              let total = Stdlib.List.length calls in
              let k = if kspec.[0] = 'a' then int_of_string (Stdlib.String.sub kspec 1 (Stdlib.String.length kspec - 1))
@@ -248,7 +270,7 @@ let run_fail id rest =
              let bits = (match Sink.user_run accepted with Ok b -> int_of_n b.Sink.blen_i | _ -> -1) in
              let retry = (match Component.pack Sink.KU8 ops with Ok b -> fnv_raw b | _ -> "err") in
              Printf.sprintf "%s %s k=%d total=%d accepted=%d calls=%s bits=%d ref=%s retry=%s" id verdict k total (Stdlib.List.length accepted) (fnv_calls accepted) bits retry retry
-           | _ -> id ^ " ops-error")
+           | Some _ -> id ^ " ops-error")
         | _ -> id ^ " enc-error")
      | _ -> id ^ " bad-case")
   | _ -> id ^ " bad-case"
@@ -560,7 +582,7 @@ let run_api id rest =
     let r = Api.api_fill_interleaved (n ch) (n cap) (n cnt) in
     Printf.sprintf "%s %s filled=%d" id (v r) (match r with Ok _ -> int_of_string cnt / int_of_string ch | _ -> 0)
   | ["FL"; ch; cap; bps; len; nb] -> Printf.sprintf "%s %s" id (v (Api.api_fill_le_bytes (n ch) (n cap) (n bps) (n len) (n nb)))
-  | ["FR"; fnum; bad] -> Printf.sprintf "%s %s" id (v (Api.api_frame (n fnum) (bad = "0")))
+  | ["FR"; fnum; bad] -> Printf.sprintf "%s %s" id (v (Api.api_frame (n fnum) (bad = "0" || bad = "6" || bad = "7")))
   | ["ST"; mt; rate; ch; bps; bs; cnt; bad] ->
     let inrange = (int_of_string bad < 0) || (int_of_string cnt = 0) in
     Printf.sprintf "%s %s" id (v (Api.api_stream (mt = "1") (n rate) (n ch) (n bps) (n bs) inrange))
